@@ -26,6 +26,7 @@ type genOpts struct {
 	layouts       bool
 	secondOp      bool // a second operator swap on the same channel (both spellings)
 	peerOps       bool // the peer also initiates
+	clnAdapters   int  // percent of cln-flavoured nodes that run the real clightning adapter over the simulated lightningd (tier 3)
 	adapters      int  // percent of lnd-flavoured nodes that run the real lnd adapter over the simulated LND (tier 2)
 	csvBurst      int  // percent of plans in which the chain jumps past the CSV during the fault phase (with service outages around the jump)
 	reorgs        bool
@@ -85,12 +86,18 @@ func genPlan(t *rapid.T, o genOpts) *world.Plan {
 		scn.Flavor[i] = pick(t, "flavor", o.flavors)
 		scn.LiquidBackend[i] = pick(t, "backend", o.backends)
 	}
+	if o.clnAdapters == 0 {
+		o.clnAdapters = 30 // default share of cln-flavoured nodes running the real clightning adapter (tier 3); negative = none
+	}
 	if o.adapters == 0 {
 		o.adapters = 40 // default share of lnd-flavoured nodes running the real adapter (tier 2); negative = none
 	}
 	for i := 0; i < 2; i++ {
 		if o.adapters > 0 && scn.Flavor[i] == "lnd" && rapid.IntRange(0, 99).Draw(t, "adapter") < o.adapters {
 			scn.Adapter[i] = "lnd"
+		}
+		if o.clnAdapters > 0 && scn.Flavor[i] == "cln" && rapid.IntRange(0, 99).Draw(t, "cln-adapter") < o.clnAdapters {
+			scn.Adapter[i] = "cln" // tier 3
 		}
 	}
 	scn.DurationSec = pick(t, "duration", o.duration)
